@@ -3,6 +3,7 @@ C15 — helper lemmas: http.Header algebra, the header edits of `init`, payload 
 every responseWriter method, and the run invariant behind the property theorems.
 -/
 import CaddyModel.C15.Spec
+import CaddyModel.C15.Caddyfile
 
 set_option linter.unusedSimpArgs false
 set_option linter.unusedVariables false
@@ -1400,5 +1401,118 @@ theorem flatten_nonEmpty (cfg : Cfg Bytes) (hsz : cfg.size = List.length) :
     · subst hc; rw [hsz] at ih ⊢; simp [ih]
     · have : (cfg.size c != 0) = true := by simp [hsz, hc]
       simp only [this, if_true, List.flatten_cons, ih]
+
+end CaddyModel.C15
+
+/-! ## Caddyfile glue -/
+namespace CaddyModel.C15
+
+theorem validatePrefer_iff (offered : List Bytes) : ∀ (prefer : List Bytes),
+    validatePrefer offered prefer = true ↔ prefer.Nodup ∧ ∀ p ∈ prefer, p ∈ offered
+  | [] => by simp [validatePrefer]
+  | p :: ps => by
+    simp only [validatePrefer, Bool.and_eq_true, Bool.not_eq_true', validatePrefer_iff offered ps,
+      List.nodup_cons, List.mem_cons, forall_eq_or_imp]
+    simp only [List.contains_eq_mem, decide_eq_true_eq, decide_eq_false_iff_not]
+    constructor
+    · rintro ⟨⟨a, b⟩, c, d⟩; exact ⟨⟨b, c⟩, a, d⟩
+    · rintro ⟨⟨b, c⟩, a, d⟩; exact ⟨⟨a, b⟩, c, d⟩
+
+/-- `prefer` and the keys of `EncodingsRaw` have the same members -/
+def SameNames (st : CfState) : Prop := ∀ n, n ∈ st.prefer ↔ n ∈ st.encs
+
+theorem mem_addKey (l : List Bytes) (k n : Bytes) : n ∈ addKey l k ↔ n ∈ l ∨ n = k := by
+  unfold addKey
+  by_cases h : l.contains k = true
+  · rw [if_pos h]
+    constructor
+    · exact Or.inl
+    · rintro (h1 | rfl)
+      · exact h1
+      · simpa using h
+  · rw [if_neg h, List.mem_append, List.mem_singleton]
+
+theorem sameNames_add (st : CfState) (k : Bytes) (h : SameNames st) :
+    ∀ n, n ∈ st.prefer ++ [k] ↔ n ∈ addKey st.encs k := by
+  intro n
+  rw [mem_addKey, List.mem_append, List.mem_singleton, h n]
+
+theorem procToks_sameNames (sub : Option (List (List Bytes))) : ∀ (toks : List Bytes) (st st' : CfState),
+    procToks sub toks st = .ok st' → SameNames st → SameNames st'
+  | [], st, st', h, hs => by
+    unfold procToks at h
+    split at h
+    · cases h
+    · cases h; exact hs
+  | t :: rest, st, st', h, hs => by
+    unfold procToks at h
+    split at h
+    · -- minimum_length
+      split at h
+      · cases h
+      · split at h
+        · cases h
+        · exact procToks_sameNames sub _ _ _ h (fun n => hs n)
+    · split at h
+      · -- match
+        split at h
+        · cases h
+        · split at h <;> first | cases h; exact (fun n => hs n) | cases h
+      · split at h
+        · cases h
+        · split at h
+          · -- gzip
+            split at h
+            · cases h; exact sameNames_add st vGzip hs
+            · split at h
+              · cases h
+              · cases h; exact sameNames_add st vGzip hs
+          · split at h
+            · -- zstd
+              split at h
+              · cases h; exact sameNames_add st vZstd hs
+              · split at h
+                · cases h; exact sameNames_add st vZstd hs
+                · cases h
+            · cases h
+
+theorem procBlock_sameNames : ∀ (block : List Line) (st st' : CfState),
+    procBlock block st = .ok st' → SameNames st → SameNames st'
+  | [], st, st', h, hs => by unfold procBlock at h; cases h; exact hs
+  | l :: ls, st, st', h, hs => by
+    unfold procBlock at h
+    split at h
+    · rename_i st1 h1
+      exact procBlock_sameNames ls st1 st' h (procToks_sameNames l.sub l.toks st st1 h1 hs)
+    all_goals cases h
+
+/-- the formats of the directive line extend `prefer` by names that were not enabled before, each once -/
+theorem procArgs_spec : ∀ (args : List Bytes) (st st' : CfState), procArgs args st = .ok st' → SameNames st →
+    SameNames st' ∧ (st.prefer.Nodup → st'.prefer.Nodup) ∧ (∃ added, st'.prefer = st.prefer ++ added ∧ ∀ a ∈ added, a ∈ args) ∧
+      st'.minLen = st.minLen ∧ st'.matcher = st.matcher ∧ st'.gzipLevel = st.gzipLevel
+  | [], st, st', h, hs => by
+    unfold procArgs at h; cases h
+    exact ⟨hs, id, ⟨[], by simp, by simp⟩, rfl, rfl, rfl⟩
+  | a :: as, st, st', h, hs => by
+    unfold procArgs at h
+    split at h
+    · obtain ⟨i1, i2, ⟨added, e, hm⟩, i4⟩ := procArgs_spec as st st' h hs
+      exact ⟨i1, i2, ⟨added, e, fun x hx => List.mem_cons_of_mem _ (hm x hx)⟩, i4⟩
+    · rename_i hc
+      split at h
+      · have hna : a ∉ st.prefer := by
+          rw [hs a]; simpa using hc
+        have hs1 : SameNames { st with encs := st.encs ++ [a], prefer := st.prefer ++ [a] } := by
+          intro n; simp [hs n]
+        obtain ⟨i1, i2, ⟨added, e, hm⟩, i4⟩ := procArgs_spec as _ st' h hs1
+        refine ⟨i1, fun hn => i2 ?_, ⟨a :: added, by rw [e]; simp, ?_⟩, i4⟩
+        · simp only [List.nodup_append, List.nodup_cons, List.not_mem_nil, not_false_eq_true, List.nodup_nil,
+            and_self, List.mem_singleton, true_and]
+          exact ⟨hn, fun x hx y hy => by subst hy; exact fun e => hna (e ▸ hx)⟩
+        · intro x hx
+          rcases List.mem_cons.mp hx with rfl | hx
+          · exact List.mem_cons_self
+          · exact List.mem_cons_of_mem _ (hm x hx)
+      · cases h
 
 end CaddyModel.C15
